@@ -3,6 +3,7 @@ package props
 import (
 	"fmt"
 	"go/token"
+	"strings"
 
 	"gcv/internal/an"
 	"gcv/internal/core"
@@ -195,6 +196,7 @@ func checkC03(r *core.Run) {
 	r.Check(n >= 10, "R-C03-consumed", "floor/call-sites", "-", fmt.Sprintf("%d validator call sites", n), "too few validator call sites found")
 
 	c03Signers(r, p)
+	c03Equations(r, p)
 }
 
 // c03Parser: every SetB32 of parameter bytes is preceded by an overflow rejection of the same
@@ -517,4 +519,193 @@ func c03Signers(r *core.Run, p *core.Program) {
 		Match: an.MatchBoolCallAtoms(true, "(*"+secp+".Number).is_zero", "call:(hash.Hash).Sum")})
 	guardOb(r, p, rule, "schnorr-sign/self-verify", "BIP340 signer verifies its own signature before returning it", an.GuardSpec{Fn: ss, Fail: nilRes, Dom: "returns",
 		Match: an.MatchBoolCall(false, secp+".SchnorrVerify")})
+}
+
+// ---- R-C03-equation: shape of the verification / signing equations (E-TERM) -------------------
+
+func c03Terms(p *core.Program) *an.TermInterp {
+	return an.NewTermInterp(p, an.TermCfg{
+		Inline: func(f *ssa.Function) bool {
+			// the thin wrappers around math/big are interpreted down to the big.Int primitives
+			return f.Signature.Recv() != nil && an.TypeName(f.Signature.Recv().Type()) == secp+".Number" && f.Name() != "get_bin" && f.Name() != "split" && f.Name() != "split_exp"
+		},
+		Name: func(s string) string {
+			s = strings.ReplaceAll(s, secp+".", "")
+			return strings.ReplaceAll(s, "(*math/big.Int).", "big.")
+		},
+		MaxPaths: 128,
+	})
+}
+
+var c03Comm = map[string]bool{"big.Mul": true, "big.Add": true}
+
+const c03N = "global:" + secp + ".TheCurve.Order"
+
+func matchPat(pat string, t *an.Term, binds map[string]*an.Term) bool {
+	return an.MatchTerm(an.NormalizeComm(an.MustParseTerm(pat), c03Comm), an.NormalizeComm(t, c03Comm), binds)
+}
+
+func c03Equations(r *core.Run, p *core.Program) {
+	const rule = "R-C03-equation"
+	r.Rule(rule, "the terms computed by the ECDSA verifier/signer and the BIP340 verifier/signer (Herbrand interpretation of their code, big-number wrappers inlined) equal the defining formulas: u1 = m/s, u2 = r/s mod n, R = u1*G + u2*P, r == R.x mod n; s = k^-1 (m + r*d) mod n with the zero test applied to that s; BIP340: R = s*G - e*P with e = H(r||pk||m), comparison of R.x with r")
+	ti := c03Terms(p)
+	nTerm := an.T(c03N)
+
+	// 1. recompute
+	if fn := p.Func(secp + ".(*Signature).recompute"); fn != nil {
+		n := 0
+		for _, pr := range ti.Run(fn) {
+			if len(pr.Ret) != 1 || pr.Ret[0].String() != "const:true" {
+				continue
+			}
+			n++
+			b := map[string]*an.Term{"$N": nTerm}
+			r2 := pr.Heap["p:r2"]
+			ok := r2 != nil && matchPat("big.Mod(big.SetBytes((*Field).GetB32#1((*Field).Normalize#0((*XYZ).get_x#1($PR)))),$N)", r2, b)
+			what := "r2 = x(R) mod n"
+			if ok {
+				ok = matchPat("(*XYZ).ECmult#1((*XYZ).SetXY#0(in:pubkey),_,$U2,$U1)", b["$PR"], b)
+				what = "R = u2*P + u1*G"
+			}
+			if ok {
+				ok = matchPat("big.Mod(big.Mul($SN,in:message),$N)", b["$U1"], b) && matchPat("big.Mod(big.Mul($SN,in:sig.R),$N)", b["$U2"], b)
+				what = "u1 = m*s^-1 mod n, u2 = r*s^-1 mod n"
+			}
+			if ok {
+				ok = matchPat("big.ModInverse(in:sig.S,$N)", b["$SN"], b)
+				what = "s^-1 = ModInverse(s, n)"
+			}
+			if ok {
+				ok = pr.HasCond(an.T("(*XYZ).IsInfinity", b["$PR"]), true, c03Comm)
+				what = "accepting only when R is not the point at infinity"
+			}
+			got := "nil"
+			if r2 != nil {
+				got = r2.String()
+			}
+			r.Check(ok, rule, fmt.Sprintf("ecdsa-verify/recompute/path%d", n), p.Pos(fn.Pos()), "r2 = x(u1*G + u2*P) mod n with u1 = m/s, u2 = r/s", "verification equation differs at: "+what+"; computed r2 = "+clip(got, 400))
+		}
+		r.Check(n >= 1, rule, "ecdsa-verify/recompute/accepting-path", p.Pos(fn.Pos()), "accepting path found", "no accepting path in recompute")
+	} else {
+		r.Fail(rule, "ecdsa-verify/recompute", "-", "recompute not found")
+	}
+	// 2. Verify compares r with the recomputed value
+	if fn := p.Func(secp + ".(*Signature).Verify"); fn != nil {
+		n := 0
+		for _, pr := range ti.Run(fn) {
+			if len(pr.Ret) != 1 || pr.Ret[0].String() == "const:false" {
+				continue
+			}
+			n++
+			b := map[string]*an.Term{}
+			ok := matchPat("==(big.Cmp(in:r.R,$RC),const:0)", pr.Ret[0], b)
+			if ok {
+				// $RC is the value recompute leaves in its output argument, computed from (sig, pubkey, message)
+				rc := b["$RC"]
+				var names []string
+				for _, a := range rc.Args {
+					if a.Op != "zero" && !strings.HasPrefix(a.Op, "in:r2") {
+						names = append(names, a.String())
+					}
+				}
+				ok = rc.Op == "(*Signature).recompute#1" && strings.Join(names, ",") == "in:r,in:pubkey,in:message"
+			}
+			has := false
+			for _, c := range pr.Cond {
+				if strings.HasPrefix(c, "(*Signature).recompute(") {
+					has = true
+				}
+			}
+			r.Check(ok && has, rule, fmt.Sprintf("ecdsa-verify/compare/path%d", n), p.Pos(fn.Pos()), "accepts iff recompute succeeded and r == recomputed value", "accepting return is "+clip(pr.Ret[0].String(), 300))
+		}
+		r.Check(n == 1, rule, "ecdsa-verify/compare/one-accepting-path", p.Pos(fn.Pos()), "exactly one possibly-accepting path", fmt.Sprintf("%d possibly-accepting paths", n))
+	}
+	// 3. Sign
+	if fn := p.Func(secp + ".(*Signature).Sign"); fn != nil {
+		okPaths, zeroPaths := 0, 0
+		for _, pr := range ti.Run(fn) {
+			if len(pr.Ret) != 1 {
+				continue
+			}
+			s := pr.Heap["p:sig.S"]
+			if s == nil {
+				continue
+			}
+			b := map[string]*an.Term{"$N": nTerm}
+			s0 := s
+			for {
+				bb := map[string]*an.Term{"$N": nTerm}
+				if matchPat("big.Sub($N,$X)", s0, bb) {
+					s0 = bb["$X"]
+					continue
+				}
+				break
+			}
+			ok := matchPat("big.Mod(big.Mul(big.ModInverse(in:nonce,$N),$NN),$N)", s0, b)
+			what := "s = k^-1 * (...) mod n"
+			if ok {
+				ok = matchPat("big.Mod(big.Add(big.Mod(big.Mul($R,in:seckey),$N),in:message),$N)", b["$NN"], b)
+				what = "(m + r*d) mod n"
+			}
+			if ok {
+				ok = matchPat("big.Mod(big.SetBytes((*Field).GetB32#1((*Field).Normalize#0(sel:.X((*XY).SetXYZ#0(ECmultGen#0(_,in:nonce)))))),$N)", b["$R"], b)
+				what = "r = x(k*G) mod n"
+				if ok && pr.Heap["p:sig.R"] != nil {
+					ok = an.NormalizeComm(pr.Heap["p:sig.R"], c03Comm).String() == an.NormalizeComm(b["$R"], c03Comm).String()
+					what = "sig.R is the r used in s"
+				}
+			}
+			zt := an.T("==", an.T("big.Sign", s0), an.T("const:0"))
+			switch pr.Ret[0].String() {
+			case "const:1":
+				okPaths++
+				if ok {
+					ok = pr.HasCond(zt, true, c03Comm)
+					what = "the s != 0 test is applied to the final s (before the low-S negations)"
+				}
+				r.Check(ok, rule, fmt.Sprintf("ecdsa-sign/success-path%d", okPaths), p.Pos(fn.Pos()), "s = k^-1 (m + r d) mod n, tested non-zero, possibly negated", "signing equation differs at: "+what+"; s = "+clip(s.String(), 300))
+			case "const:0":
+				zeroPaths++
+				if ok {
+					ok = pr.HasCond(zt, false, c03Comm)
+					what = "failure is returned exactly when the final s is zero"
+				}
+				r.Check(ok, rule, fmt.Sprintf("ecdsa-sign/failure-path%d", zeroPaths), p.Pos(fn.Pos()), "returns 0 iff s == 0", "failure path differs at: "+what)
+			}
+		}
+		r.Check(okPaths >= 1 && zeroPaths >= 1, rule, "ecdsa-sign/paths", p.Pos(fn.Pos()), fmt.Sprintf("%d success and %d failure paths", okPaths, zeroPaths), "signer paths not found")
+	}
+	// 4. SchnorrVerify
+	if fn := p.Func(secp + ".SchnorrVerify"); fn != nil {
+		n := 0
+		for _, pr := range ti.Run(fn) {
+			if len(pr.Ret) != 1 || pr.Ret[0].String() == "const:false" {
+				continue
+			}
+			n++
+			b := map[string]*an.Term{"$N": nTerm}
+			ok := matchPat("(*Field).Equals((*Field).SetB32#0(in:sig[0:const:32]),(*Field).Normalize#0(sel:.X((*XY).SetXYZ#0((*XYZ).ECmult#1((*XYZ).SetXY#0((*XY).ParseXOnlyPubkey#0(_,in:pkey)),_,big.Sub($N,SchnorrsigChallenge#0(in:sig[0:const:32],in:msg,in:pkey)),big.SetBytes(in:sig[const:32:end]))))))", pr.Ret[0], b)
+			r.Check(ok, rule, fmt.Sprintf("schnorr-verify/path%d", n), p.Pos(fn.Pos()), "accepts iff x(s*G + (n-e)*P) == r with e = challenge(r, m, pk)", "BIP340 verification equation differs: "+clip(pr.Ret[0].String(), 500))
+		}
+		r.Check(n == 1, rule, "schnorr-verify/one-accepting-path", p.Pos(fn.Pos()), "exactly one possibly-accepting path", fmt.Sprintf("%d possibly-accepting paths", n))
+	}
+	// challenge hash order r || pk || m on the tagged midstate
+	if fn := p.Func(secp + ".SchnorrsigChallenge"); fn != nil {
+		for _, pr := range ti.Run(fn) {
+			e := pr.Heap["p:e"]
+			ok := e != nil && matchPat("big.SetBytes((hash.Hash).Sum(write(write(write(ShaMidstateChallenge,in:r32),in:pubkey32),in:msg32),nil))", e, map[string]*an.Term{})
+			got := "nil"
+			if e != nil {
+				got = e.String()
+			}
+			r.Check(ok, rule, "schnorr/challenge-preimage", p.Pos(fn.Pos()), "e = H_challenge(r || pk || m)", "challenge preimage differs: "+clip(got, 300))
+		}
+	}
+}
+
+func clip(s string, n int) string {
+	if len(s) > n {
+		return s[:n] + "..."
+	}
+	return s
 }
